@@ -22,6 +22,14 @@ pub enum HOp {
     CondRemove { v: u64 },
     /// retain_force rejected k: remove it whatever it maps to
     ForceRemove,
+    /// HashSet::insert: true iff the value was not present (the cell then holds instance `new`)
+    SetInsert { new: u64, ret: bool },
+    /// HashSet::remove: true iff the value was present
+    SetRemove { ret: bool },
+    /// a conditional removal whose condition the harness cannot observe (set retain racing a
+    /// re-insertion of the same element, which replaces the unit value): removes instance `v` or
+    /// does nothing
+    MaybeRemove { v: u64 },
 }
 
 #[derive(Clone, Debug, Serialize)]
@@ -86,6 +94,24 @@ fn apply(op: &HOp, s: Option<u64>) -> Option<Option<u64>> {
             }
         }
         HOp::ForceRemove => Some(None),
+        HOp::SetInsert { new, ret } => {
+            if *ret != s.is_none() {
+                None
+            } else if *ret {
+                Some(Some(*new))
+            } else {
+                Some(s)
+            }
+        }
+        HOp::SetRemove { ret } => {
+            if *ret == s.is_some() {
+                Some(None)
+            } else {
+                None
+            }
+        }
+        // (the "does nothing" outcome; the removing outcome is added by the search)
+        HOp::MaybeRemove { .. } => Some(s),
     }
 }
 
@@ -134,6 +160,11 @@ pub fn check_key(init: Option<u64>, ents: &[HEnt]) -> Result<Vec<Option<u64>>, S
             }
             if let Some(ns) = apply(&e.op, st) {
                 stack.push((done | 1 << i, ns));
+            }
+            if let HOp::MaybeRemove { v } = &e.op {
+                if st == Some(*v) {
+                    stack.push((done | 1 << i, None));
+                }
             }
         }
     }
